@@ -13,7 +13,8 @@
       models/utilities.py             compute_std_from_variance    -> [guard]
                                       compute_probs_from_state     -> [probs_update]
                                       compute_ind_param_mean_from_suff_stats_mixture -> [wmean]
-                                      compute_ind_param_std_from_suff_stats_mixture(_burn_in) -> [mix_spread]
+                                      compute_ind_param_std_from_suff_stats_mixture(_burn_in) -> [mix_spread], [mix_var_rule]
+      variables/distributions.py      MixtureNormalFamily._nll (z = (x - loc) / scale) -> [standardised]
       models/obs_models/_gaussian.py  y_L2, n_obs (+ _per_ft)      -> [y_L2], [n_obs]
                                       scalar_noise_std_update      -> [noise_scalar_var], [noise_scalar_rule]
                                       diagonal_noise_std_update    -> [noise_ft_var], [noise_diag_rule]
@@ -156,6 +157,21 @@ Definition wmean (w x : list Q) : res Q :=
     does not depend on the individual (it was already reduced over individuals) *)
 Definition mix_spread (w : list Q) (s : R) : R :=
   (fold_right Rplus 0%R (map (fun a => (Q2R a * s)%R) w) / Q2R (sumQ w))%R.
+
+(** [compute_ind_param_std_from_suff_stats_mixture], one cluster: the variance of the plain rule around the old mean of
+    THAT cluster, but [std = ip_var.sqrt()] directly — the rule never calls [compute_std_from_variance]; the [tol] keyword
+    that [for_ind_std_mixture] accepts and forwards is swallowed by [**kws].  (Whether the running code guards is
+    regenerated on every run: GenC04.gen_mix_std_guarded.)  [sqrt] of a negative variance is nan: [Undefined]. *)
+Definition mix_var_rule (old_mean : Q) (S1 S2 : list Q) : res Q :=
+  match S1, S2 with
+  | [], _ | _, [] => Undefined
+  | _, _ => let v := ind_var_saem old_mean S1 S2 in if Qlt_bool v 0 then Undefined else Ok v
+  end.
+
+(** what the NEXT iteration does with the stored std of a cluster: [MixtureNormalFamily._nll] standardises each
+    individual value, [z = (x - loc[c]) / scale[c]] — 0/0 (nan) or x/0 (inf) when the stored std is 0; every cluster
+    log-density, hence every responsibility (softmax) and every mixture parameter of that M-step, is computed from [z] *)
+Definition standardised (x m s : Q) : res Q := if Qeq_bool s 0 then Undefined else Ok ((x - m) / s).
 
 (** * [update_parameters]: every update is computed from the pre-step state, then all are assigned. *)
 
